@@ -396,6 +396,23 @@ func ruleProvIssuer(c *Ctx, r *Rep) {
 					expectSet(r, "own-context|"+fk+"|IssuerDn", c.Pos(fs.st.Pos()), o, "a context acting as its own issuer is named by its subject", prm+".TbsCertificate.Subject")
 				}
 			}
+		case returnsIssuerCtx(fn) && !hasLoop(fn) && func() bool {
+			// a plain assembler, however deep below the driver: every field is one of its parameters (or derived from one);
+			// what it is applied to is checked where the driver uses the result, through inlining
+			for _, fs := range byFn[fn] {
+				o := pv.Origins(fs.val())
+				if len(o) == 0 {
+					return false
+				}
+				for _, x := range o {
+					if !strings.HasPrefix(x, "P("+fk+".") {
+						return false
+					}
+				}
+			}
+			return len(byFn[fn]) > 0
+		}():
+			r.Ok("assembler|"+fk, c.FnPos(fn), "fills the issuer context from its parameters only; checked at its use", "inlined")
 		default:
 			// constructors of a fresh context: the placeholder issuer is the context itself (self-signed default)
 			subj := ""
@@ -1776,6 +1793,13 @@ func ruleProvRaw(c *Ctx, r *Rep) {
 						guard, _ = d.Str()
 					}
 				}
+			case *ssa.Extract:
+				// rest, found := strings.CutPrefix(s, prefix)
+				if call, ok := x.Tuple.(*ssa.Call); ok && x.Index == 1 && g.Truth && calleeFullName(call) == "strings.CutPrefix" && call.Call.Args[0] == ssa.Value(fn.Params[0]) {
+					if d := c.describe(ev, call.Call.Args[1], 0); d.IsConst() {
+						guard, _ = d.Str()
+					}
+				}
 			}
 			if guard != "" {
 				break
@@ -1785,6 +1809,10 @@ func ruleProvRaw(c *Ctx, r *Rep) {
 		switch guard {
 		case "!binary:":
 			want := "(*encoding/base64.Encoding).DecodeString(G(encoding/base64.StdEncoding)|strings.TrimPrefix(" + s + "|K(\"!binary:\")))#0"
+			wantCut := "(*encoding/base64.Encoding).DecodeString(G(encoding/base64.StdEncoding)|strings.CutPrefix(" + s + "|K(\"!binary:\"))#0)#0"
+			if len(o) == 1 && o[0] == wantCut {
+				want = wantCut
+			}
 			if expectSet(r, "binary|"+fk, c.Pos(ret.Pos()), o, "StdEncoding.DecodeString of everything after the prefix", want) {
 				nOK++
 			}
